@@ -247,8 +247,8 @@ pub fn run_target(target: &str, data: &[u8]) -> Vec<Finding> {
             let cs: Vec<Complex> = body.chunks(2).map(|c| Complex::new(f_of(c[0]), f_of(*c.get(1).unwrap_or(&0)))).collect();
             let sps = 1.1 + (h(1) as f32) / 4.0;
             let specs: Vec<(BlockSpec, InputData)> = match h(0) % 6 {
-                0 => vec![(BlockSpec::SymbolSync { sps, maxdev: (h(2) % 100) as f32 / 100.0, t0: 0.5, t1: 0.5 }, InputData::F32(xs))],
-                1 => vec![(BlockSpec::ZeroCrossing { sps }, InputData::F32(xs))],
+                0 => vec![(BlockSpec::SymbolSync { sps, maxdev: (h(2) % 100) as f32 / 100.0, t0: 0.5, t1: 0.5, clk: h(2) & 0x80 != 0 }, InputData::F32(xs))],
+                1 => vec![(BlockSpec::ZeroCrossing { sps, clk: h(2) & 0x80 != 0 }, InputData::F32(xs))],
                 2 => vec![(BlockSpec::QuadDemod { gain: f_of(h(2)) }, InputData::C32(cs))],
                 3 => vec![(BlockSpec::FirF32 { taps: crate::catalog::TapSpec { n: 1 + (h(1) % 40) as u16, kind: h(2) % 4, seed: h(2) as u32 }, deci: 1 + h(2) % 4 }, InputData::F32(xs))],
                 4 => vec![(BlockSpec::FastFm, InputData::C32(cs))],
